@@ -71,6 +71,8 @@ def geom_stages(ctx, lazy=False):
                                    per_step=6 if ctx.quick() else 10)
     stages.stage_sim_lookups(ctx, "GeomSim", num=150 if ctx.quick() else 3000, depth=30 if ctx.quick() else 50,
                              bases=bases[:2] if ctx.quick() else bases, per_step=10)
+    stages.stage_sim_lookups(ctx, "GeomBig", num=200 if ctx.quick() else 3000, depth=40, bases=bases[:1],
+                             per_step=16, p_lookup=0.35)
 
 
 @plan("C05", "C06")
@@ -103,7 +105,7 @@ def lazy_index_stage(ctx):
     from . import tlc
     from .build import MachineryFailure
     cfg = tlc.render_cfg({"Vals": {"b1", "b2"}, "Offs": {0, 1} if ctx.quick() else {0, 1, 3}, "Sizes": {0, 2},
-                          "MaxEv": 4 if ctx.quick() else 5},
+                          "MaxEv": 4 if ctx.quick() else 5, "Members0": set(), "GetWeight": 1},
                          invariants=["LazyInv", "GetIsFresh"], constraints=["Bound"])
     r = tlc.run("LazyIndex", cfg, workers=16, coverage=True, want_records=False)
     if r.errors:
@@ -167,8 +169,9 @@ def lazy_class_stage(ctx):
     except Exception as e:   # an implementation without this class is not wrong (DESIGN rule 1)
         ctx.stages.append({"stage": "lazy-class-replay", "skipped": "no gtirb.lazyintervaltree: %s" % e})
         return
-    vals = {"b1", "b2", "b3", "b4", "b5"}
-    cfg = tlc.render_cfg({"Vals": vals, "Offs": {0, 1, 3}, "Sizes": {0, 2}, "MaxEv": 9},
+    vals = {"b1", "b2", "b3", "b4", "b5", "b6"}
+    cfg = tlc.render_cfg({"Vals": vals, "Offs": {0, 1, 3}, "Sizes": {0, 2}, "MaxEv": 9, "Members0": vals - {"b6"},
+                          "GetWeight": 30},
                          invariants=["LazyInv", "GetIsFresh"], constraints=["Bound"])
     num = 400 if ctx.quick() else 6000
     r = tlc.run("LazyIndex", cfg, workers=1, simulate=num, depth=60, seed=ctx.seed + 9, want_records=False)
@@ -178,6 +181,8 @@ def lazy_class_stage(ctx):
     branches = {}
     for path in sorted(glob.glob(os.path.join(r.workdir, "sim", "b_*"))):
         env = LazyClassEnv(vals)
+        for v0 in sorted(vals - {"b6"}):
+            env.step({"name": "add", "v": v0})
         hist = []
         for st in tlaparse.parse_behaviour(open(path).read())[1:]:
             op = st["op"]
@@ -201,7 +206,7 @@ def lazy_class_stage(ctx):
     ctx.evaluations += steps
     ctx.transitions += steps
     ctx.stages.append({"stage": "lazy-class-replay", "spec": "LazyIndex.tla", "behaviours": num, "steps": steps,
-                       "get_calls_compared": gets, "spec_branches": branches, "values": 5, "max_pending_events": 9})
+                       "get_calls_compared": gets, "spec_branches": branches, "values": 6, "max_pending_events": 9})
     ctx.log("LazyIndex class replay: %d behaviours, %d get() compared, branches %s" % (num, gets, branches))
 
 
@@ -305,9 +310,26 @@ def replay_file(gtirb, prop, path):
     env = universe.Env(gtirb, consts, base=base)
     print("replaying %d operations of configuration %s (base %s)" % (len(v["history"]), v["config"], base))
     obs = None
+    from . import judge
+    rec = judge.Recorder(consts)
     for op in v["history"]:
-        obs = env.step(op)
+        if op["name"] == "query":
+            obs = rec.ask(env, op["f"], op["x"], op["q"], op["point"])
+        else:
+            obs = env.step(op)
         print("  %s -> %s" % (json.dumps(op), json.dumps(obs, default=str)[:200]))
+    if v["kind"] == "lookup":
+        q = v["op"]["q"]
+        got = rec.ask(env, v["op"]["name"], v["op"]["x"], q, q[1] == q[0] + 1 and q[2] == 1)
+        key = lambda a: sorted(map(json.dumps, a))  # noqa
+        must, may = v["expected"]["must"], v["expected"]["may"]
+        ok = len(set(key(got))) == len(got) and set(key(must)) <= set(key(got)) <= set(key(may))
+        print("lookup %s -> %s; the spec said must=%s may=%s" % (json.dumps(v["op"]), json.dumps(got), json.dumps(must), json.dumps(may)))
+        if ok:
+            print("the divergence does not reproduce on the current tree")
+            return 0
+        print("VIOLATION property=%s replay=%s" % (prop, path))
+        return 1
     print("expected:", json.dumps(v["expected"], default=str)[:1000])
     if v["kind"] == "result":
         same = replay.norm_res(v["op"], obs) == replay.norm_res(v["op"], v["expected"])
